@@ -73,11 +73,13 @@ class Rig:
         drawing.STATIC_FOLDER = os.path.join(self.tree.base, "static")
         self.root_abs = os.path.join(self.tree.base, "sqlroot")
 
-    def configure(self, start, rootset):
+    def configure(self, start, rootset, which="ROOT"):
         from pathlib import Path
         cwd = self.root_abs if start == "root_rel" else self.tree.base
         os.chdir(cwd)
-        if rootset == "abs":
+        if which == "OUT":
+            root = os.path.join(self.tree.base, "outside") if rootset == "abs" else ("../outside" if start == "root_rel" else "outside")
+        elif rootset == "abs":
             root = self.root_abs
         else:
             root = "." if start == "root_rel" else "sqlroot"
@@ -100,7 +102,8 @@ class Rig:
             holder["status"] = status
             holder["headers"] = headers
         if route == "get":
-            environ = {"REQUEST_METHOD": "GET", "PATH_INFO": "/" + "/".join(segs)}
+            parts = ([self.tree.base] if start == "abs" else []) + list(segs)
+            environ = {"REQUEST_METHOD": "GET", "PATH_INFO": "/" + "/".join(parts)}
         else:
             p = self.path_string(start, segs)
             key = "d" if route == "directory_d" else "f"
